@@ -30,7 +30,7 @@ OPEXPR = {
     'STRICT1': 'strict< {a} >', 'STRICT': 'strict< {a}, {b} >', 'STRICT3': 'strict< {a}, {b}, {c} >',
     'STAR_STRICT1': 'star_strict< {a} >', 'STAR_STRICT': 'star_strict< {a}, {b} >', 'STAR_STRICT3': 'star_strict< {a}, {b}, {c} >',
     'UNTIL1': 'until< {a} >', 'UNTIL2': 'until< {a}, {b} >', 'UNTIL3': 'until< {a}, {b}, {c} >',
-    'REP2_2': 'rep< 2, {a}, {b} >', 'REP_MIN2_2': 'rep_min< 2, {a}, {b} >', 'REP_OPT2_2': 'rep_opt< 2, {a}, {b} >', 'RMM12_2': 'rep_min_max< 1, 2, {a}, {b} >',
+    'REP2_2': 'rep< 2, {a}, {b} >', 'REP_MIN2_2': 'rep_min< 2, {a}, {b} >', 'REP_MIN1_2': 'rep_min< 1, {a}, {b} >', 'REP_MIN0_2': 'rep_min< 0, {a}, {b} >', 'REP_OPT2_2': 'rep_opt< 2, {a}, {b} >', 'RMM12_2': 'rep_min_max< 1, 2, {a}, {b} >',
     'RAISE_OF': 'raise< {a} >', 'RAISE_MSG': "raise_message< 'r', 'm', 's', 'g' >",
     'TC_RF': 'try_catch_return_false< {a} >', 'TC_ANY_RF': 'try_catch_any_return_false< {a} >', 'TC_STD_RF': 'try_catch_std_return_false< {a} >',
     'TC_TYPE_RF': 'try_catch_type_return_false< int, {a} >', 'TC_RN': 'try_catch_raise_nested< {a} >', 'TC_ANY_RN': 'try_catch_any_raise_nested< {a} >',
